@@ -541,7 +541,30 @@ def rule_py_call_signature(rep, floor=900):
 
 def rule_py_highlevel_returns(rep, floor=40):
     r = rep.rule("FORWARD.py-highlevel", "every function of src/awkward/operations that takes `highlevel` decides the kind of its result with it on every path: each return either goes through ak._util.maybe_wrap / maybe_wrap_like, "
-                 "forwards highlevel= to another operation, or sits under an explicit test of highlevel - a path that returns a bare layout ignores both highlevel and behavior", floor=floor)
+                 "forwards highlevel= to another operation, or sits under an explicit test of highlevel - a path that returns a bare layout ignores both highlevel and behavior; "
+                 "(b) the value handed to maybe_wrap is a layout: it is never assigned from another high-level operation called without highlevel=False", floor=floor)
+    ops = {}
+    for rel in [x for x in pf.all_modules() if x.startswith("operations/")]:
+        for fd in pf.module(rel).tree.body:
+            if isinstance(fd, ast.FunctionDef) and "highlevel" in [a.arg for a in fd.args.args + fd.args.kwonlyargs]:
+                ops[fd.name] = fd
+
+    def opcall(c):
+        """name of the high-level operation c calls without deciding highlevel, else None"""
+        if not isinstance(c, ast.Call):
+            return None
+        d = pf.dotted(c.func) if isinstance(c.func, (ast.Attribute, ast.Name)) else None
+        if not d:
+            return None
+        nm = d.split(".")[-1]
+        if nm not in ops or d not in (nm, "ak." + nm, "ak.operations.structure." + nm, "ak.operations.convert." + nm, "ak.operations.describe." + nm, "ak.operations.reducers." + nm):
+            return None
+        if any(k_.arg == "highlevel" or k_.arg is None for k_ in c.keywords):
+            return None
+        params = [a.arg for a in ops[nm].args.args]
+        if "highlevel" in params and len(c.args) > params.index("highlevel"):
+            return None
+        return nm
     for rel in [x for x in pf.all_modules() if x.startswith("operations/")]:
         m = pf.module(rel)
         for fd in m.tree.body:
@@ -571,6 +594,21 @@ def rule_py_highlevel_returns(rep, floor=40):
                 s = ast.unparse(ret.value)
                 ok = under or "maybe_wrap" in s or "highlevel" in s
                 r.check(ok, "%s:%s#return%d" % (rel, fd.name, k), m.where(ret), "%s in %s returns `%s` without consulting highlevel (and behavior)" % (fd.name, rel, s[:70]), detail="maybe_wrap / highlevel= / under a highlevel test")
+            # (b) what is handed to maybe_wrap is a layout
+            k = 0
+            for w in ast.walk(fd):
+                if not (isinstance(w, ast.Call) and pf.dotted(w.func) in ("ak._util.maybe_wrap", "ak._util.maybe_wrap_like") and w.args):
+                    continue
+                srcs = [w.args[0]]
+                if isinstance(w.args[0], ast.Name):
+                    srcs = [s_.value for s_ in ast.walk(fd) if isinstance(s_, ast.Assign) and any(isinstance(t, ast.Name) and t.id == w.args[0].id for t in s_.targets)]
+                for v in srcs:
+                    while isinstance(v, ast.Subscript):
+                        v = v.value
+                    k += 1
+                    nm = opcall(v)
+                    r.check(nm is None, "%s:%s#wrapped%d" % (rel, fd.name, k), m.where(v), "%s in %s hands the result of `%s` to maybe_wrap: %s is called without highlevel=False, so with highlevel=False the caller still receives an ak.Array" % (
+                        fd.name, rel, ast.unparse(v)[:60], nm), detail="wrapped value is a layout")
     return r.done()
 
 
@@ -612,4 +650,111 @@ def rule_py_defassign(rep, floor=800):
                 # a tuple target of which at least one component is used is a projection (`[a for a, b in pairs]`), not a slip
                 partial = len(names) > 1 and len(un) < len(names)
                 r.check(not un or partial, "%s#comprehension@%s" % (rel, ast.unparse(c)[:40]), m.where(c), "in %s the comprehension `%s` never uses its loop variable %s" % (rel, ast.unparse(c)[:70], un), detail="loop variable used")
+    return r.done()
+
+
+_BUILTIN_ARITY = {"hash": (1, 1), "len": (1, 1), "id": (1, 1), "isinstance": (2, 2), "issubclass": (2, 2), "callable": (1, 1), "iter": (1, 2), "next": (1, 2), "abs": (1, 1),
+                  "repr": (1, 1), "ord": (1, 1), "chr": (1, 1), "getattr": (2, 3), "setattr": (3, 3), "hasattr": (2, 2), "delattr": (2, 2), "divmod": (2, 2), "bool": (0, 1), "reversed": (1, 1)}
+
+
+def rule_py_call_shape(rep, floor=1500):
+    r = rep.rule("SHAPE.py-call", "(a) every call of a fixed-arity builtin (hash, len, isinstance, getattr, ...) that the module does not rebind has an admissible number of arguments; "
+                 "(b) `self.m(self, ...)` is never written for a plain method m of the enclosing class (the receiver is already bound: the call is a TypeError); "
+                 "(c) a recursive function that forwards its own parameter p as p at three or more recursive calls forwards it at all of them: a constant (or the default) at one site makes the result depend on where the recursion passed", floor=floor)
+    rtable = load_table("py_recursion_exceptions.json")
+    for rel in [x for x in pf.all_modules() if "generated_parser" not in x]:
+        m = pf.module(rel)
+        rebound = set()
+        for n in ast.walk(m.tree):
+            if isinstance(n, (ast.FunctionDef, ast.ClassDef)):
+                rebound.add(n.name)
+                if isinstance(n, ast.FunctionDef):
+                    rebound.update(a.arg for a in n.args.args + n.args.kwonlyargs)
+            elif isinstance(n, ast.Name) and isinstance(n.ctx, ast.Store):
+                rebound.add(n.id)
+        cnt = {}
+        for c in ast.walk(m.tree):
+            if isinstance(c, ast.Call) and isinstance(c.func, ast.Name) and c.func.id in _BUILTIN_ARITY and c.func.id not in rebound:
+                if any(isinstance(a, ast.Starred) for a in c.args) or any(k.arg is None for k in c.keywords):
+                    continue
+                lo, hi = _BUILTIN_ARITY[c.func.id]
+                n_ = len(c.args) + len(c.keywords)
+                cnt[c.func.id] = cnt.get(c.func.id, 0) + 1
+                r.check(lo <= n_ <= hi, "%s:%s#%d" % (rel, c.func.id, cnt[c.func.id]), m.where(c), "%s calls the builtin `%s` with %d arguments (it takes %s): TypeError at run time" % (
+                    rel, ast.unparse(c)[:70], n_, lo if lo == hi else "%d-%d" % (lo, hi)), detail="builtin arity")
+        for cls in [n for n in ast.walk(m.tree) if isinstance(n, ast.ClassDef)]:
+            plain = set()
+            for fd in cls.body:
+                if isinstance(fd, ast.FunctionDef):
+                    decs = {ast.unparse(d) for d in fd.decorator_list}
+                    if not decs & {"staticmethod", "classmethod"} and fd.args.args and fd.args.args[0].arg == "self":
+                        plain.add(fd.name)
+            k = 0
+            for fd in cls.body:
+                if not isinstance(fd, ast.FunctionDef):
+                    continue
+                for c in ast.walk(fd):
+                    if isinstance(c, ast.Call) and isinstance(c.func, ast.Attribute) and isinstance(c.func.value, ast.Name) and c.func.value.id == "self" and c.func.attr in plain:
+                        k += 1
+                        twice = bool(c.args) and isinstance(c.args[0], ast.Name) and c.args[0].id == "self"
+                        r.check(not twice, "%s:%s.%s#%d" % (rel, cls.name, c.func.attr, k), m.where(c), "%s.%s in %s calls `%s`: self is passed twice to the bound method %s" % (
+                            cls.name, fd.name, rel, ast.unparse(c)[:70], c.func.attr), detail="bound method called without a second self")
+        for fd in [n for n in ast.walk(m.tree) if isinstance(n, ast.FunctionDef)]:
+            names = [a.arg for a in fd.args.args]
+            params = names + [a.arg for a in fd.args.kwonlyargs]
+            calls = [c for c in ast.walk(fd) if isinstance(c, ast.Call) and isinstance(c.func, ast.Name) and c.func.id == fd.name]
+            if len(calls) < 3:
+                continue
+            for p in params[1:]:
+                fw, other = [], []
+                for c in calls:
+                    v = None
+                    for kw in c.keywords:
+                        if kw.arg == p:
+                            v = kw.value
+                    if v is None and p in names and len(c.args) > names.index(p):
+                        v = c.args[names.index(p)]
+                    if isinstance(v, ast.Name) and v.id == p:
+                        fw.append(c)
+                    elif v is None or isinstance(v, ast.Constant):
+                        other.append((c, v))
+                if len(fw) < 3:
+                    continue
+                key = "%s:%s(%s)" % (rel, fd.name, p)
+                if key in rtable and other:
+                    r.excepted(key, rtable[key])
+                    r.ok(key)
+                    continue
+                if not other:
+                    r.ok(key, "%d recursive calls forward %s" % (len(fw), p))
+                for c, v in other:
+                    r.fail(key, m.where(c), "%s in %s forwards its parameter %s at %d recursive calls but passes %s at `%s`" % (
+                        fd.name, rel, p, len(fw), "the default" if v is None else ast.unparse(v), ast.unparse(c)[:60]))
+    return r.done()
+
+
+def rule_py_dead_attr(rep, floor=20):
+    r = rep.rule("DEAD.py-attr-store", "every private attribute (`obj._name = ...`) the Python layer stores is read somewhere in the package (as an attribute or through its name as a string): "
+                 "a value stored under a name nothing reads - `out._partitions = copies` next to the real field `_ext` - is work thrown away, and the object keeps its old state", floor=floor)
+    table = load_table("py_deadattr_exceptions.json")
+    reads, writes = set(), {}
+    for rel in [x for x in pf.all_modules() if "generated_parser" not in x]:
+        m = pf.module(rel)
+        for n in ast.walk(m.tree):
+            if isinstance(n, ast.Attribute):
+                if isinstance(n.ctx, ast.Store):
+                    if n.attr.startswith("_") and not n.attr.startswith("__"):
+                        writes.setdefault(n.attr, []).append((rel, m.where(n)))
+                else:
+                    reads.add(n.attr)
+            elif isinstance(n, ast.Constant) and isinstance(n.value, str):
+                reads.add(n.value)
+    for a, ws in sorted(writes.items()):
+        if a in reads:
+            r.ok(a, "%d stores, read in the package" % len(ws))
+        elif a in table:
+            r.excepted(a, table[a])
+            r.ok(a)
+        else:
+            r.fail(a, ws[0][1], "attribute `%s` is stored (%s) but never read anywhere in src/awkward" % (a, ", ".join(w for _, w in ws[:3])))
     return r.done()
